@@ -126,6 +126,19 @@ SEEDS = {
  "C18f": ("C18", "block iteration over the module-wide prefix", "same idea as C07e"),
  "C20e": ("C20", "BeaconsFiltered count-only shortcut that ignores the moniker filter", "moniker filter without owner filter, offset paging"),
  "C20f": ("C20", "purchaser filter overwrites the status filter result", "both filters set, purchaser with orders in several states"),
+ # ---- fourth round ("wildcard": all twenty properties given, each agent pointed at one cross-cutting area)
+ "W1a": ("C10", "stream escrow account removed from the blocked addresses (app wiring)", "same idea as C10b; a stream towards the escrow itself is accepted as well"),
+ "W1b": ("C06", "both fee decorators are skipped whenever the fee-granter field is set", "fee granter = the payer itself (legal without an allowance): any fee is admitted"),
+ "W2a": ("C05", "the unlock decorator uses the first message signer instead of the fee payer", "a co-signed transaction with an explicit fee payer different from the owner, one of them holding locked eFUND"),
+ "W2b": ("C01", "BEACON ante max-slots lookups inside a map range", "same idea as C01b"),
+ "W3a": ("C16", "signer entries validated after TrimSpace", "same idea as C16a"),
+ "W3b": ("C20", "WrkChainsFiltered counts out-of-page entries as hits before filtering", "owner/moniker filter with offset paging or count_total"),
+ "W4a": ("C15", "BEACON export lists timestamps newest first", "same idea as C07f"),
+ "W4b": ("C03", "reject branch additionally requires accepts < MinAccepts", "same idea as C03e"),
+ "W5a": ("C11", "SetNewFlowRate writes back the stale copy", "same idea as C11a"),
+ "W5b": ("C10", "ClaimFromStream returns before the store write when the receiver share is zero", "validator fee exactly 1.0 (same idea as C10e)"),
+ "W6a": ("C01", "WRKChain ante max-slots lookups inside a map range", "same idea as C01d"),
+ "W6b": ("C05", "the unlock decorator uses GetSigners()[0]", "same idea as W2a"),
 }
 
 
